@@ -4,4 +4,4 @@ set -e
 cd "$(dirname "$(readlink -f "$0")")/harness"
 export CARGO_NET_OFFLINE=true
 cargo build --release
-if [ -f vcheck/src/bin/c20.rs ]; then cargo build --profile strict -p vcheck --bin c20; fi
+cargo build --profile strict -p vtotal --bin c20
